@@ -1298,8 +1298,10 @@ def c06_vehicle_step(rn, a, b, move_events, step_s: float) -> List[Tuple[str, tu
         # leaves the travelling activity within one step of arriving
         out.append(("stuck_after_arrival", (na,), f"vehicle {vid} stays {na} although nothing remains of its route"))
         return out
-    # closed-loop suffix: the vehicle already stands on the route's final cell -> the suffix is dropped, no movement
-    if len(Rp) == 0 and not moved and R[0].start == R[-1].end == a.geoid:
+    # nothing to drive: every link of the route begins and ends in one place (the straight-line network's "g-g" links) -> the
+    # route is dropped, no movement.  (A route that merely ends in the cell where it begins -- round the block to the other side of
+    # the street -- is driven like any other since repair D27; before it, the library dropped it and this oracle let it.)
+    if len(Rp) == 0 and not moved and all(l.start == l.end for l in R):
         if abs(dodo) > 1e-12:
             out.append(("odometer_without_move", (na,), f"vehicle {vid} did not move, odometer +{dodo}"))
         return out
